@@ -128,14 +128,134 @@ func c19queued(c *core.Ctx) {
 
 func c19timed(c *core.Ctx) {
 	r := c.R
-	switch r.Intn(5) {
+	switch r.Intn(6) {
 	case 0, 1:
 		c19send(c, r)
 	case 2, 3:
 		c19recv(c, r)
 	case 4:
 		c19unlimited(c, r)
+	case 5:
+		c19queuedConcurrent(c, r)
 	}
+}
+
+// c19queuedConcurrent: several consumers call RecvQueued / RecvQueuedFull on one
+// buffered channel at the same time (optionally closed, optionally with a
+// producer still adding). Whatever the interleaving: nothing invented, nothing
+// duplicated, returned + left over == sent.
+func c19queuedConcurrent(c *core.Ctx, r *core.Rand) {
+	capa := r.Range(1, 64)
+	ch := make(chan int, capa)
+	fill := r.Range(0, capa)
+	var sent []int
+	for i := 0; i < fill; i++ {
+		ch <- 7000 + i
+		sent = append(sent, 7000+i)
+	}
+	closed := r.Bool()
+	late := 0
+	if closed {
+		close(ch)
+	} else if r.Bool() {
+		late = r.Range(1, 20)
+	}
+	nc := r.Range(2, 6)
+	full := r.Bool()
+	got := make([][]int, nc)
+	bad := make([]string, nc)
+	var wg sync.WaitGroup
+	start := make(chan struct{})
+	done := make(chan struct{})
+	var lateSent []int
+	prodDone := make(chan struct{})
+	go func() {
+		defer close(prodDone)
+		<-start
+		for i := 0; i < late; i++ {
+			v := 8000 + i
+			select {
+			case ch <- v:
+				lateSent = append(lateSent, v)
+			default:
+			}
+		}
+	}()
+	for k := 0; k < nc; k++ {
+		k := k
+		rr := r.Fork()
+		wg.Add(1)
+		go func() {
+			defer wg.Done()
+			<-start
+			for round := 0; round < 3; round++ {
+				lim := rr.Range(0, capa+2)
+				if full {
+					buf := make([]int, lim)
+					n := chans.RecvQueuedFull(ch, buf)
+					if n < 0 || n > lim {
+						bad[k] = fmt.Sprintf("RecvQueuedFull returned %d for a buffer of %d", n, lim)
+						return
+					}
+					got[k] = append(got[k], buf[:n]...)
+				} else {
+					vs := chans.RecvQueued(ch, lim)
+					if len(vs) > lim {
+						bad[k] = fmt.Sprintf("RecvQueued returned %d values for limit %d", len(vs), lim)
+						return
+					}
+					got[k] = append(got[k], vs...)
+				}
+			}
+		}()
+	}
+	close(start)
+	go func() { wg.Wait(); close(done) }()
+	name := "RecvQueued"
+	if full {
+		name = "RecvQueuedFull"
+	}
+	select {
+	case <-done:
+	case <-time.After(30 * time.Second):
+		// wall clock: not a verdict (the closed-channel variant decides the same defect logically)
+		c.Inconclusive(name + " with concurrent consumers did not return within 30 s")
+		return
+	}
+	<-prodDone
+	var left []int
+	for len(ch) > 0 {
+		left = append(left, <-ch)
+	}
+	c.Count("timed_"+name+"_concurrent_consumer_scenarios", 1)
+	var all []int
+	for k := range got {
+		if bad[k] != "" {
+			c.Violate(name+":concurrent:count", bad[k], nil)
+			return
+		}
+		all = append(all, got[k]...)
+	}
+	allSent := append(append([]int{}, sent...), lateSent...)
+	extra := map[string]any{"helper": name, "capacity": capa, "prefilled": fill, "closed": closed, "consumers": nc, "late_sends": len(lateSent),
+		"returned": sorted(all), "left_in_channel": sorted(left)}
+	for _, v := range all {
+		if v < 7000 {
+			c.Violate(name+":concurrent:invented", fmt.Sprintf("%s returned %d, which was never sent (closed=%v, %d concurrent consumers)", name, v, closed, nc), extra)
+			return
+		}
+	}
+	arrived := append(append([]int{}, all...), left...)
+	if d := firstDup(arrived); d != 0 {
+		c.Violate(name+":concurrent:duplicated", fmt.Sprintf("value %d was returned twice", d), extra)
+		return
+	}
+	if !sameSet(allSent, arrived) {
+		lostV, ghost := diff(allSent, arrived)
+		c.Violate(name+":concurrent:conservation", fmt.Sprintf("sent but neither returned nor left: %v; returned but never sent: %v", lostV, ghost), extra)
+		return
+	}
+	c.NonTrivial(core.Mix(c.Seed, 4))
 }
 
 func dur(r *core.Rand, loUS, hiUS int) time.Duration {
